@@ -2,7 +2,7 @@
 use crate::sexp::Sexp;
 use std::fmt::Write;
 
-#[derive(Clone, Debug, PartialEq, Eq, Hash)]
+#[derive(Clone, Debug, PartialEq, Eq)]
 pub enum Val {
   Z(i64),
   B(bool),
@@ -10,6 +10,17 @@ pub enum Val {
   P(Box<Val>, Box<Val>),
   L(Vec<Val>),
   Opt(Option<Box<Val>>),
+}
+
+/// A deliberately coarse (and legal: equal values hash alike) hash: integers hash by parity, everything else alike.  Whatever
+/// the crate keeps in a hash map keyed by items or keys (distinct, group_by) must still tell unequal values apart.
+impl std::hash::Hash for Val {
+  fn hash<H: std::hash::Hasher>(&self, state: &mut H) {
+    match self {
+      Val::Z(z) => state.write_u8((z.rem_euclid(2)) as u8),
+      _ => state.write_u8(7),
+    }
+  }
 }
 
 /// Mirrors the model's `val_ltb`: only integers are ordered.
